@@ -533,7 +533,7 @@ fn run_class_case(c: &Case) -> Result<(), String> {
 }
 
 fn gen_class(r: &mut Rng, depth: usize) -> String {
-    const ATOMS: &[&str] = &["a", "b", "c-e", "a-c", "x", "é", "0-9", "b-d", "\\n", "z", ".", "\\."];
+    const ATOMS: &[&str] = &["a", "b", "c-e", "a-c", "x", "é", "0-9", "b-d", "\\n", "z", ".", "\\.", "a-z", "d", "3-5", "A-z", " -~"];
     let mut s = String::from("[");
     if r.below(3) == 0 { s.push('^'); }
     let n = 1 + r.below(3);
@@ -673,7 +673,7 @@ fn run_unsupported_case(c: &Case) -> Result<(), String> {
 }
 
 fn gen_supported(r: &mut Rng, depth: usize) -> String {
-    const LEAVES: &[&str] = &["a", "b", "[a-c]", ".", "\\d", "[^x]", "ab", "é"];
+    const LEAVES: &[&str] = &["a", "b", "[a-c]", ".", "\\d", "[^x]", "ab", "é", "[0-9a-é]", "[\\t -\\u{10FFFF}]", "[a-zé€]", "[a-cx-zb-y]", "\\.", "\\)"];
     if depth == 0 { return r.pick(LEAVES).to_string(); }
     match r.below(7) {
         0 => format!("({})", gen_supported(r, depth - 1)),
@@ -687,7 +687,9 @@ fn gen_supported(r: &mut Rng, depth: usize) -> String {
 /// plants one unsupported construct somewhere
 fn gen_unsupported(r: &mut Rng, depth: usize) -> String {
     const BAD: &[&str] = &["^", "$", "\\b", "\\B", "(?i)", "a*?", "a+?", "a??", "(?i:a)", "a{1,2}?", "\\A", "\\z", "(?s-i:b)", "(?-i:a)", "(?-ms:a.b)", "(?i-s:a)", "(?x)", "(?U:a)",
-        "\\pl", "\\p{alphabetic}", "\\p{Foo}", "\\pX", "\\p{scx=Latin}", "\\p{sc=Greek}", "\\P{uppercase}"];
+        "\\pl", "\\p{alphabetic}", "\\p{Foo}", "\\pX", "\\p{scx=Latin}", "\\p{sc=Greek}", "\\P{uppercase}",
+        // syntax errors
+        "a)", "end)", "(a", "[a", "a{2,1}"];
     if depth == 0 { return r.pick(BAD).to_string(); }
     match r.below(6) {
         0 => format!("({})", gen_unsupported(r, depth - 1)),
@@ -742,9 +744,10 @@ const PATS: &[&str] = &["a", "b", "c", "ab", "abc", "a+", "b+", "[ab]", "[ab]+",
     // named classes in both polarities (they agree with the regex crate on the alphabet used here)
     "\\pL+", "\\PL", "\\w+", "\\W", "\\s", "\\S+", "[^\\W]+", "\\p{Lowercase}+", "\\P{Lowercase}",
     // tokens that run over several lines
-    "[a-c\n]+", "a\nb", "\n(b\n)+", "[^x]+x", "(b|\n)+c"];
+    "[a-c\n]+", "a\nb", "\n(b\n)+", "[^x]+x", "(b|\n)+c",
+    "\\.", "a\\.b?"];
 const LAS: &[&str] = &["a", "b", "c", "bc", "b+", "é", "[ab]", "x", "c+", "\n", "bc?", "b{1,2}", "ab?", "b|bc", "b*c", "a?b", "(ab)+", "c{2}"];
-const ALPHA: &[char] = &['a', 'b', 'c', 'é', '\n', 'x', 'a', 'b', '€', '😀', 'c', '\n'];
+const ALPHA: &[char] = &['a', 'b', 'c', 'é', '\n', 'x', 'a', 'b', '€', '😀', 'c', '\n', '.'];
 
 fn gen_input(r: &mut Rng, maxlen: usize) -> String {
     let n = r.below(maxlen + 1);
@@ -950,6 +953,11 @@ fn gen_case(family: &str, r: &mut Rng) -> Case {
                         trans.push((t, r.below(nm)));
                     }
                 }
+                // a valid configuration may name token types in a mode's transitions that none of its own patterns produce
+                if r.below(6) == 0 {
+                    let t = trans.last().map(|x: &(usize, usize)| x.0 + 1 + r.below(40)).unwrap_or(r.below(60));
+                    if !trans.iter().any(|x| x.0 == t) { trans.push((t, r.below(nm))); trans.sort(); }
+                }
                 modes.push(ModeSpec { name: format!("M{mi}"), pats, trans });
             }
             let input = gen_input(r, 10);
@@ -1011,6 +1019,10 @@ fn gen_case(family: &str, r: &mut Rng) -> Case {
             } else { p };
             let in_la = r.below(4) == 0;
             let mut pats = if in_la { vec![PatSpec { p: "a".into(), tt: 0, la: Some((r.below(2) == 0, p)) }] } else { vec![PatSpec { p, tt: 0, la: None }] };
+            // two patterns sharing a token type, both with lookaheads: the second lookahead is the one under test
+            if in_la && r.below(3) == 0 {
+                pats.insert(0, PatSpec { p: "b".into(), tt: 0, la: Some((true, "c".into())) });
+            }
             // a supported near twin of an unknown class listed first (same scanner, shared class registry)
             if r.below(3) == 0 {
                 pats.insert(0, PatSpec { p: r.pick(&["\\pL", "\\p{Alphabetic}", "\\PL", "\\p{Uppercase}", "\\d", "[a-c]"]).to_string(), tt: 7, la: None });
